@@ -89,7 +89,8 @@ def rand_marker_schedule(rng, nthreads, maxpre=3):
     segs, last = [], None
     for _ in range(rng.randint(1, maxpre)):
         tid = rng.choice([t for t in range(nthreads) if t != last])
-        segs.append([tid, rng.choice(MARK_KINDS), rng.randint(1, 3)])
+        kind = rng.choice(MARK_KINDS)
+        segs.append([tid, kind, 1 if kind == "FIRST" else rng.randint(1, 3)])
         last = tid
     segs.append([last, "END", 1])
     return segs
